@@ -418,9 +418,27 @@ func keyHelpers(fn *ssa.Function) string {
 				}
 			case ssa.CallInstruction:
 				if sc := x.Common().StaticCallee(); sc != nil && sc.Blocks != nil && isPikeFunc(sc) {
-					names[sc.Name()] = true
-					if val, ok := x.(ssa.Value); ok {
+					// a helper that hands back a string / []byte derives the address from the key;
+					// any other helper merely carries the key on to the client library
+					val, isVal := x.(ssa.Value)
+					derives := false
+					if isVal {
+						switch u := val.Type().Underlying().(type) {
+						case *types.Basic:
+							derives = u.Info()&types.IsString != 0
+						case *types.Slice:
+							derives = true
+						}
+					}
+					if derives {
+						names[sc.Name()] = true
 						follow(val, d+1)
+					} else {
+						for ai, a := range x.Common().Args {
+							if a == v && ai < len(sc.Params) {
+								follow(sc.Params[ai], d+1)
+							}
+						}
 					}
 				}
 			}
